@@ -92,6 +92,16 @@ def ssh_main(host, cmd):
                     state['launch_fault'] = True
                     kill_child()
                     break
+            if line.startswith(HS) and plan.get('badport'):
+                # the handshake succeeds but nobody listens where the boss is told to connect (a firewalled port, a host alias that does
+                # not resolve for TCP): a port that was bound and closed again
+                import socket as _s
+                tmp_sock = _s.socket()
+                tmp_sock.bind(('127.0.0.1', 0))
+                dead = tmp_sock.getsockname()[1]
+                tmp_sock.close()
+                state['launch_fault'] = True
+                line = HS + str(dead).encode() + b'\n'
             if line.startswith(HS) and plan.get('cut'):
                 port = int(line[len(HS):].strip())
                 with plock:
@@ -206,6 +216,8 @@ def scenario_build(sc, base):
         plan['stdin'] = {'log': log, 'lines': fl['k']}
     elif k == 'launch':
         plan['launch'] = {'when': fl['when'], 'line': fl['line']}
+    elif k == 'connect':
+        plan['badport'] = True
     env['REMOTE_PLAN'] = json.dumps({HOST: plan})
     return [src, dest], env, e2e.fake_ssh_dir(base, SSH_WRAPPER)
 
@@ -227,7 +239,7 @@ def run_real(binary, sc, base, watchdog=WATCHDOG):
             st = json.load(open(os.path.join(base, 'status.json')))
             break
         except (OSError, ValueError):
-            if not r['timed_out'] and sc['fault']['kind'] != 'launch':
+            if not r['timed_out'] and sc['fault']['kind'] not in ('launch', 'connect'):
                 time.sleep(0.01)
             else:
                 time.sleep(0.005)
@@ -323,7 +335,7 @@ def model_lines(sc, clean_cmds):
     cap = sc['capacity'] if sc.get('capacity') is not None else 100 * 1024 * 1024
     n = len(kinds)
     eplan, plans = '-', ['-']
-    if k == 'launch':
+    if k in ('launch', 'connect'):
         return []
     if k == 'err':
         pos = None
@@ -389,6 +401,8 @@ def gen(tier, clean):
         for when in ('before', 'after'):
             for line in (1, 2):
                 yield {'side': side, 'files': FILES, 'capacity': None, 'fault': {'kind': 'launch', 'when': when, 'line': line}}
+        # the launch succeeds but the TCP connection to the announced port cannot be made (the doer sits in accept(), its stdin held by the boss)
+        yield {'side': side, 'files': FILES, 'capacity': None, 'fault': {'kind': 'connect'}}
 
 
 def work_done_before(obs, sc):
@@ -415,7 +429,7 @@ def fault_surely_happened(sc, obs):
     st = obs.get('status') or {}
     if k == 'none':
         return False
-    if k == 'launch':
+    if k in ('launch', 'connect'):
         return True if st.get('launch_fault') else None
     if k == 'kill':
         if not st.get('killed'):
